@@ -424,7 +424,7 @@ class Run:
                         self.log(ev="Late", c=k + 1, b=list(data))
                         conn_of(k).feed(data)
                         await vnet.settle(3)
-                    if not self.apis[k].connected:       # a library that hung up on the slow device: the caller connects again
+                    if not self.apis[k].connected or conn_of(k).closing:       # a library that hung up on the slow device: the caller connects again
                         scn["ops"][k].insert(cursors[k], {"op": "reconnect", "after_hangup": True})
                     start_next(k)
                     continue
